@@ -34,7 +34,8 @@ def instrument(text):
             m = re.match(r'(?:%[\w.$"-]+ = )?(?:tail |musttail |notail )?(load|store|atomicrmw|cmpxchg|fence|call|invoke)\b', body)
             if m:
                 op = m.group(1); kind = None
-                if op == 'load': kind = 0
+                if op == 'load' and '@__libc_single_threaded' in body: kind = None     # folded to a constant by the encoder (irxform.fold_constants)
+                elif op == 'load': kind = 0
                 elif op in ('store', 'atomicrmw', 'cmpxchg'): kind = 1
                 elif op == 'fence': kind = 2
                 else:
@@ -42,6 +43,7 @@ def instrument(text):
                     if c:
                         nm = c.group(1)
                         if nm.startswith(('llvm.memcpy', 'llvm.memmove', 'llvm.memset')): kind = 1
+                        elif nm == 'vp_point': kind = 4      # explicit switch point of the harness API: an event in the encoding too
                         elif nm in model_ev and nm not in RENAME: kind = model_ev[nm]   # renamed externals count their own events (vp_rt.c)
                 if kind is not None:
                     out.append(f"  call void @vp_rt_ev(i32 {kind})")
